@@ -124,3 +124,11 @@ package table
 //@     invariant[counters] table.numUnroutable.count == old(table.numUnroutable.count) && confWf(c) && buf[..] == old(buf[..])
 //@     invariant[others_c] table.numIn.count == old(table.numIn.count) + 1 && table.numInvalid.count == old(table.numInvalid.count) && table.numOutOfOrder.count == old(table.numOutOfOrder.count)
 //@        && table.numBlacklist.count == old(table.numBlacklist.count) && sent(table.bad.In) == old(sent(table.bad.In))
+
+// ---------------------------------------------------------------- IncNumInvalid (C02): used by inputs for lines they reject themselves
+//@ func (table *Table) IncNumInvalid()
+//@   property C02
+//@   requires table.wf()
+//@   modifies table.numIn.count, table.numInvalid.count
+//@   ensures[in_once]      table.numIn.count == old(table.numIn.count) + 1
+//@   ensures[invalid_once] table.numInvalid.count == old(table.numInvalid.count) + 1
